@@ -206,6 +206,15 @@ def mk_PROBEDEBUGBAD(label):
     return _faulty(label, 2, ('debug_then', ('len', 0, 'plus1')), base=mk_RSA2048, conn=1)
 
 
+def mk_DEBUGBADBLOCK(label):
+    # first connection: a well-formed MSG_DEBUG where the KEXINIT is due (legal), then a packet with a bad block size
+    return _faulty(label, 1, ('debug_then', ('len', 0, 'plus1')))
+
+
+def mk_DEBUGEMPTY(label):
+    return _faulty(label, 1, ('debug_then', ('emptypayload',)))
+
+
 # healthy archetypes used by single families only (kept out of the all-pairs products)
 HEALTHY_EXTRA = {'PQONLY': mk_PQONLY}
 
@@ -215,6 +224,7 @@ FAILING = {
     'GARBAGEBANNER': mk_GARBAGEBANNER, 'BADCRC': mk_BADCRC, 'PROBEGARBAGE': mk_PROBEGARBAGE, 'PROBEBADBLOCK': mk_PROBEBADBLOCK,
     'EMPTYPAYLOAD': mk_EMPTYPAYLOAD, 'PADOVERRUN': mk_PADOVERRUN, 'PROBEEMPTYPAYLOAD': mk_PROBEEMPTYPAYLOAD,
     'PROBEKEXBAD': mk_PROBEKEXBAD, 'PROBEHOSTKEYBAD': mk_PROBEHOSTKEYBAD, 'PROBEDEBUGBAD': mk_PROBEDEBUGBAD,
+    'DEBUGBADBLOCK': mk_DEBUGBADBLOCK, 'DEBUGEMPTY': mk_DEBUGEMPTY,
 }
 
 # a peer that sends part of its identification string (or a whole line before it) late - well inside the timeout, a millisecond before
